@@ -198,6 +198,8 @@ def run(c, chk):
     c14.walker_template(c, c08.chk_proxy(chk, {'R14.7': 'R16.4'}), ex)
 
     defaults_for_every_context(c, chk, ex)
+    chk.rule('R16.6', 'a context\'s flag word (inherited wholesale by every section created in it) is written only while the context is being built')
+    flag_words(c, chk, rid_ctx='R16.6')
 
     # ---- R16.3 ---------------------------------------------------------------------------
     for fname, pname, allowed in (('cfg_init', 'opts', {'cfg_dupopt_array'}),
@@ -440,3 +442,124 @@ def defaults_for_every_context(c, chk, ex):
     elif n:
         chk.ok('R16.5', 'cfg_init_defaults: %d returning paths' % n, 'each ends at the end marker of the table (or the table is NULL)', sample=True)
     chk.floor('R16.5 returning paths of cfg_init_defaults', n, 2)
+
+
+# the bits of an option's flag word that record what happened to the option (everything else in the word is declaration)
+OPTION_STATE_BITS = {
+    64: 'CFGF_RESET (the next value replaces the current ones)',
+    128: 'CFGF_DEFINIT (the defaults of this section option were applied)',
+    4096: 'CFGF_MODIFIED (changed from its default)',
+    2048: 'CFGF_COMMENTS (the option carries an annotation)',
+}
+ALLOC_CALLS = ('calloc', 'malloc', 'realloc', 'reallocarray')
+
+
+def _flag_stores(c):
+    """[(function, store instr, struct name, kind, mask, base operand)] for every store to a 'flags' member"""
+    out = []
+    for mod in c.modules:
+        for f in mod.funcs.values():
+            for ins in f.instrs():
+                if ins.op != 'store' or ins.ops[1].kind != 'reg':
+                    continue
+                g = f.defs.get(ins.ops[1].name)
+                if g is None or g.op != 'getelementptr' or not g.srcty.strip().startswith('%struct.') or len(g.ops) < 3 or g.ops[-1].kind != 'int':
+                    continue
+                sty = g.srcty.strip()
+                if sty not in ('%struct.cfg_opt_t', '%struct.cfg_t') or len(g.ops) != 3 or mod.field_name(sty, g.ops[2].ival) != 'flags':
+                    continue
+                kind, mask = 'assign', None
+                v = ins.ops[0]
+                d = f.defs.get(v.name) if v.kind == 'reg' else None
+                if d is not None and d.op in ('or', 'and'):
+                    k = next((x for x in d.ops if x.kind == 'int'), None)
+                    if k is not None:
+                        kind, mask = ('set', k.ival & 0xffffffff) if d.op == 'or' else ('clear', ~k.ival & 0xffffffff)
+                    elif d.op == 'or':
+                        # flags |= other & MASK
+                        for x in d.ops:
+                            dx = f.defs.get(x.name) if x.kind == 'reg' else None
+                            if dx is not None and dx.op == 'and':
+                                k = next((y for y in dx.ops if y.kind == 'int'), None)
+                                if k is not None:
+                                    kind, mask = 'set', k.ival & 0xffffffff
+                out.append((f, ins, sty[8:], kind, mask, g.ops[0]))
+    return out
+
+
+def _is_fresh(c, f, v, depth=0):
+    """is this pointer an object that was allocated in this function (or, for a parameter, in every caller)?"""
+    if depth > 4:
+        return False
+    if v.kind != 'reg':
+        return False
+    d = f.defs.get(v.name)
+    if d is None:
+        pos = next((i for i, p in enumerate(f.params) if p.name == v.name), None)
+        if pos is None:
+            return False
+        sites = [(g, call) for m in c.modules for g in m.funcs.values() for call in g.calls(f.name)]
+        return bool(sites) and all(pos < len(call.args) and _is_fresh(c, g, call.args[pos], depth + 1) for g, call in sites)
+    if d.op == 'bitcast':
+        return _is_fresh(c, f, d.ops[0], depth)
+    if d.op == 'getelementptr':
+        return _is_fresh(c, f, d.ops[0], depth)       # an element of a fresh array
+    if d.op == 'call':
+        n = d.callee_name()
+        if n in ALLOC_CALLS:
+            return True
+        g = c.func(n) if n else None
+        return g is not None and n in fresh_returning_names(c)
+    if d.op == 'phi':
+        return all(_is_fresh(c, f, x, depth + 1) for x in d.ops)
+    return False
+
+
+def fresh_returning_names(c):
+    if not hasattr(c, '_fresh_ret_names'):
+        from .. import summaries
+        try:
+            c._fresh_ret_names = set(summaries.fresh_returning(c))
+        except Exception:
+            c._fresh_ret_names = set()
+    return c._fresh_ret_names
+
+
+def flag_words(c, chk, rid_ctx=None, rid_opt=None):
+    """R16.6 (rid_ctx): a section inherits the flag word of the context it is created in, wholesale.  So a context's flag word
+    is written only while the context is being built: a bit set later on one instance would leak into every instance
+    created inside it, and a bit set on the enclosing context changes all its later children.
+    R8.8 (rid_opt): the library writes only the state bits of an option's flag word; the declaration bits (list, multi,
+    deprecated, drop, ...) belong to the schema and must read the same in every later parse."""
+    stores = _flag_stores(c)
+    nc = no = 0
+    for f, ins, sty, kind, mask, base in stores:
+        if sty == 'cfg_t' and rid_ctx:
+            nc += 1
+            if _is_fresh(c, f, base):
+                chk.ok(rid_ctx, '%s: store to a context\'s flags' % f.name, 'the context was allocated in this function (or in every caller of this helper)')
+            else:
+                chk.fail(rid_ctx, 'context-flags-written:%s' % f.name, c.where(ins),
+                         '%s() writes the flag word of a context that already exists (%s): sections created in it afterwards inherit the word wholesale, '
+                         'so the change spreads to instances that have nothing to do with the one at hand' % (f.name, 'sets 0x%x' % mask if kind == 'set' else 'clears 0x%x' % mask if kind == 'clear' else 'assigns it'))
+        if sty == 'cfg_opt_t' and rid_opt:
+            no += 1
+            allowed = 0
+            for b in OPTION_STATE_BITS:
+                allowed |= b
+            if kind == 'assign':
+                if _is_fresh(c, f, base):
+                    chk.ok(rid_opt, '%s: whole flag word of a new option record' % f.name, 'fresh object')
+                else:
+                    chk.fail(rid_opt, 'option-flags-assigned:%s' % f.name, c.where(ins), '%s() overwrites the whole flag word of an existing option (declaration bits included)' % f.name)
+            elif mask & ~allowed:
+                chk.fail(rid_opt, 'declaration-bit-written:%s:0x%x' % (f.name, mask & ~allowed), c.where(ins),
+                         '%s() %s bit(s) 0x%x of an option\'s flag word, which are part of its declaration: the change stays in the context\'s own '
+                         'option table, so every later parse into this context sees a different schema than the first one did'
+                         % (f.name, 'sets' if kind == 'set' else 'clears', mask & ~allowed))
+            else:
+                chk.ok(rid_opt, '%s: %s 0x%x' % (f.name, kind, mask), 'state bits only', nontrivial=False)
+    if rid_ctx:
+        chk.floor('%s stores to a context\'s flag word' % rid_ctx, nc, 1)
+    if rid_opt:
+        chk.floor('%s stores to an option\'s flag word' % rid_opt, no, 10)
